@@ -102,6 +102,8 @@ def classify_pin(c, env):
     import copy as _c
     f, owner, kind = c.function()
     env2 = _c.deepcopy(env)
+    if c.prepare is not None:
+        env2.update(native_by_name(c.prepare, env2))
     olds = {'old_' + k: _c.deepcopy(v) for k, v in env2.items()}
     if c.build is not None:
         fn, args, kwargs = native_by_name(c.build, env2)
